@@ -482,6 +482,15 @@ type Shared struct {
 func runShared(c *core.Case) {
 	installOnce.Do(installHooks)
 	c.Journal("shared-type")
+	if c.Index == 0 && !solo && !c.Replay {
+		// floor: the first-use cases before this one must have produced overlapping first uses
+		hs.mu.Lock()
+		ov := hs.overlap
+		hs.mu.Unlock()
+		if ov == 0 {
+			c.Inconclusive("no two constructions of one type ever overlapped: the workload did not exercise concurrent first use")
+		}
+	}
 	r := c.Rng
 	G := 16
 	if solo {
